@@ -94,11 +94,16 @@ func genRespSplit(seed uint64, tier, variant string) any {
 		// differently from small ones
 		p.X["bytewise"] = false
 		n := pick(r, 20000, 26214, 26215, 30000, 70000)
-		shape := pick(r, "[r%di]", "<r%ds>", "{r%dsi}", "[r%d[ii]]", "A[r%di]")
+		shape := pick(r, "[r%di]", "<r%ds>", "{r%dsr%di}", "[r%d[ii]]", "A[r%di]")
+		wide := ""
 		if strings.HasPrefix(shape, "{") {
+			// r repeats one element, so a map of n pairs is 2n elements (a map shape must have an even count)
 			n = pick(r, 13107, 13108, 20000)
+			wide = fmt.Sprintf(shape, n, n)
+		} else {
+			wide = fmt.Sprintf(shape, n)
 		}
-		call := CallSpec{Kind: "do", Cmds: []CmdSpec{{Argv: []string{"VTAG", "wide.k0", fmt.Sprintf(shape, n), "0"}}}}
+		call := CallSpec{Kind: "do", Cmds: []CmdSpec{{Argv: []string{"VTAG", "wide.k0", wide, "0"}}}}
 		if r.IntN(3) == 0 {
 			sh := pick(r, "b", "v", "B", "S")
 			if p.Opt.RESP2 {
